@@ -63,6 +63,7 @@ fn order_preserved(before: &[(usize, u64)], after: &[(usize, u64)]) -> bool {
 }
 
 fn run<F: Flavour>(sc: &HistSc, verdict: Verdict, stats: &mut Stats) -> Option<(Violation, usize)> {
+    crate::keys::set_style(crate::keys::style_from(sc.hash_seed));
     hashseam::set_seed(sc.hash_seed);
     let solo = Solo::new();
     if F::SYNC {
